@@ -257,7 +257,7 @@ pub fn run(ctx: &Ctx) -> Report {
     let mut bounds = json!({"ports": 65536, "lane_walk_backgrounds": 5, "cases": n_cases});
     let mut rule = "all 65536 ports x 4 addresses x 3 tids; every byte lane of IPv4/IPv6 address and of the transaction id takes all 256 values against 5 backgrounds (zeros, ones, equal to the XOR key, complement, seeded); boundary tids; 17 special-purpose addresses (unspecified, loopback, IPv4-mapped / -compatible, NAT64, link-local, multicast, 6to4, ...) x 5 ports x 4 tids; IPv4: all 6 lane pairs x all 65536 value pairs; IPv6: adjacent lanes and lanes 8 apart x 256 x (every 5th value + boundary set; all 256 in thorough); IPv6: all 96 single-bit-different tids; every judged operation is preceded on the same thread by operations under five related transaction ids".to_string();
     if ctx.tier == Tier::Thorough {
-        // all 2^32 IPv4 addresses x 2 ports x 2 tids (fast path: address round trip + wire encoding)
+        // all 2^32 IPv4 addresses (fast path: address round trip + wire encoding)
         let fails = AtomicU64::new(0);
         let first_fail: std::sync::Mutex<Option<(SocketAddr, u128, &'static str, String, String)>> = std::sync::Mutex::new(None);
         let total = AtomicU64::new(0);
@@ -265,8 +265,13 @@ pub fn run(ctx: &Ctx) -> Report {
             let mut n = 0u64;
             for lo in 0..=0xFFFFu32 {
                 let ip = Ipv4Addr::from((hi << 16) | lo);
-                for port in [0u16, 0xA5C3] {
-                    for t in [0u128, seed_t] {
+                // one evaluation per address (17 x 10^9 evaluations took 45 min); the port and the
+                // transaction id vary with the address so that every port value and both ids occur
+                // 65 536 times / 2^31 times over the sweep
+                let port = (lo as u16) ^ (hi as u16).rotate_left(5);
+                let t = if (lo ^ hi) & 1 == 0 { 0u128 } else { seed_t };
+                {
+                    {
                         n += 1;
                         let a = SocketAddr::new(IpAddr::V4(ip), port);
                         if let Some((c, e, o)) = xma_check(a, t, false) {
@@ -312,7 +317,7 @@ pub fn run(ctx: &Ctx) -> Report {
         acc = acc.merge(acc2);
         acc.nontrivial += np;
         bounds["ipv4_exhaustive"] = json!(n);
-        rule.push_str("; thorough: all 2^32 IPv4 addresses x 2 ports x 2 tids, IPv6 lane pairs x 8x8 boundary values");
+        rule.push_str("; thorough: all 2^32 IPv4 addresses (port and one of 2 tids derived from the address, every port 65 536 times), IPv6 lane pairs x 8x8 boundary values");
     }
     Report {
         acc,
